@@ -1,0 +1,12 @@
+//go:build verif
+
+package shrinker
+
+// VerifNthread reports the number of running background shrinkers (for the
+// verification harness, see /verif/DESIGN.md, Section 6).
+func (shrinkst *ShrinkerSt) VerifNthread() uint32 {
+	shrinkst.mu.Lock()
+	n := shrinkst.nthread
+	shrinkst.mu.Unlock()
+	return n
+}
